@@ -430,9 +430,20 @@ func (g *G) genC15(p *Plan) {
 	if crash {
 		n = g.n(3, 12)
 	}
+	// guard of the known finding "fs uploads are not crash-atomic": the
+	// uploads happen first, un-armed; the armed phase holds deletes and
+	// bucket operations only
+	guarded := crash && c.IsFS() && g.guards["fs-crash-atomicity"]
+	if guarded {
+		c.CrashFrom = n / 2
+	}
 	for i := 0; i < n; i++ {
 		var op Op
-		switch r := g.rng.Intn(100); {
+		r := g.rng.Intn(100)
+		if guarded && i >= c.CrashFrom && (r < 45 || (r >= 68 && r < 74)) {
+			r = 45 + g.rng.Intn(23) // a delete or multi-delete instead of an upload or copy
+		}
+		switch {
 		case r < 45:
 			sz := g.smallSize()
 			if g.chance(0.15) {
